@@ -1,6 +1,7 @@
 """Seeded-fault self-test: every mutant in selftest/mutants.json is applied to a
 scratch copy of the source directories (outside /repo and /verif), the relevant
-check is run with --root and must exit 1 naming the expected rule. A mutant whose
+check is run with --root and must exit 1 naming the expected rule (or, for variants
+marked "expect": "silent" - behaviour-preserving rewrites - must exit 0). A mutant whose
 anchor text no longer occurs is reported as skipped. Nothing is ever written to
 /repo."""
 import json
@@ -49,6 +50,11 @@ def run_mutant(m, scratch):
         with open(path, "w") as fh:
             fh.write(orig)
     viol = [l for l in out.splitlines() if l.startswith("  ") or l.startswith("VIOLATION")]
+    if m.get("expect") == "silent":
+        # behaviour-preserving rewrite: the check must stay green
+        if p.returncode == 0:
+            return m, "silent-ok", ""
+        return m, "FALSE-ALARM", "\n".join(viol[:6]) or out[-400:]
     if p.returncode == 2:
         return m, "broken", out[-800:]
     if p.returncode == 1 and any(m["rule"] in l for l in viol):
@@ -87,12 +93,13 @@ def main(tier="quick", only=None, jobs=4):
     bad = 0
     for m, st, info in sorted(results, key=lambda x: x[0]["id"]):
         print("%-12s %-5s %-28s %s" % (st, m["prop"], m["id"], m["rule"]))
-        if st in ("MISSED", "broken", "caught-other"):
+        if st in ("MISSED", "broken", "caught-other", "FALSE-ALARM"):
             print("     " + info.replace("\n", "\n     "))
-        if st in ("MISSED", "broken"):
+        if st in ("MISSED", "broken", "FALSE-ALARM"):
             bad += 1
-    print("selftest: %d mutants, %d caught, %d caught by another rule, %d skipped, %d missed/broken, %.0fs" % (
-        len(results), sum(1 for r in results if r[1] == "caught"),
+    print("selftest: %d variants, %d behaviour-preserving stayed silent, %d caught, %d caught by another rule, %d skipped, "
+          "%d missed/broken/false-alarm, %.0fs" % (
+        len(results), sum(1 for r in results if r[1] == "silent-ok"), sum(1 for r in results if r[1] == "caught"),
         sum(1 for r in results if r[1] == "caught-other"),
         sum(1 for r in results if r[1] == "skipped"), bad, time.time() - t0))
     return 1 if bad else 0
